@@ -13,3 +13,4 @@ import TFV.Properties.Src.Elitism
 #print axioms TFV.SrcTie.C02_src_evaluation_step
 #print axioms TFV.SrcTie.C02_src_de_record_step
 #print axioms TFV.SrcTie.C02_src_shaga_record_step
+#print axioms TFV.SrcTie.C02_src_ga_evaluation_step
